@@ -267,6 +267,9 @@ impl Ctx {
         }
     }
 
+    pub fn n_evals(&self) -> u64 {
+        self.evaluations
+    }
     pub fn eval(&mut self) {
         self.evaluations += 1;
     }
